@@ -27,9 +27,9 @@ def simrun_designs(invariants, properties=(), quick=True):
     prp = [q for q in properties if q in SIMRUN_PROP]
     out = []
     if quick:
-        out.append({"module": "MC_SimRun", "constants": {"MaxUpdates": "3", "MaxReqs": "2"}, "view": "View", "invariants": inv, "properties": prp,
+        out.append({"module": "MC_SimRun", "constants": {"MaxUpdates": "3", "MaxReqs": "2", "TwoStrats": "FALSE", "Iso": "TRUE"}, "view": "View", "invariants": inv, "properties": prp,
                     "must_reach": ["Reach_Replacement"], "timeout": 900})
-    out.append({"module": "MC_SimRun", "constants": {"MaxUpdates": "4", "MaxReqs": "3"}, "view": "View", "invariants": inv, "properties": prp,
+    out.append({"module": "MC_SimRun", "constants": {"MaxUpdates": "4", "MaxReqs": "3", "TwoStrats": "FALSE", "Iso": "TRUE"}, "view": "View", "invariants": inv, "properties": prp,
                 "must_reach": ["Reach_PartialFill", "Reach_QueueHonoured"], "tier": "thorough", "timeout": 2400})
     return out
 
